@@ -315,12 +315,12 @@ CHECKS["C19"] = dict(
 
 # extensions built while strengthening the checks against independently seeded changes (DESIGN.md §8)
 EXTRA = {
-    "C01": ("; J2O_Batching direct cases (axis operators on rank-3 operands, every axis) and J2O_Index (dynamic_slice / dynamic_update_slice / take / x[i] / roll / pad / Python slicing at the edges of the index domain) replayed on real exports",
+    "C01": ("; J2O_Batching direct cases (axis operators on rank-3 operands, every axis) and J2O_Index (dynamic_slice / dynamic_update_slice / take / x[i] / roll / pad / Python slicing at the edges of the index domain) replayed on real exports; J2O_Fusion (reduce_sum fusions at their boundary: exponents around 2, same operand twice vs two operands; digitize / searchsorted / argmax on ties; exact integer semantics, 3 deviations rejected by TLC) replayed in three spellings and two dtypes",
             " J2O_Batching's direct cases give exact tensors for sum/max/argmax/cumsum/cummax/flip/sort along every axis of a rank-3 operand (every registered spelling, both dtypes) and ~45 further axis functions are compared with JAX eager; J2O_Index gives exact results for index-driven primitives over index classes < -N, -N..-1, 0..N-1, >= N (clamping, wrapping, the three take modes, negative padding, Python slicing): one export per template with the index as run-time input, specification = JAX = ORT."),
-    "C02": ("; J2O_Vocab: the op-name sets the real passes consult are facts, every member instantiated generically inside Transpose / Reshape pairs through the real passes with ORT before/after",
+    "C02": ("; J2O_Vocab: the op-name sets the real passes consult are facts, every member instantiated generically inside Transpose / Reshape pairs through the real passes with ORT before/after; captured-value patterns (a value read from an If body nested 1 / 2 levels deep next to a foldable pair)",
             " The vocabularies of the guards (ELEMENTWISE_UNARY_OPS, ELEMENTWISE_BINARY_OPS, ALLOWED_ELEMWISE, UNARY_DATAFLOW_OPS) are read from the working tree; J2O_Vocab states which operator classes commute with a layout change and TLC checks every member; every member is instantiated from its ONNX schema (all axis attribute values, scalar / vector / full side operands) inside the pattern neighbourhoods. Reshape -> elementwise chain -> Reshape [-> Reshape] patterns added (HoistThroughReshape)."),
-    "C03": ("; @onnx_function call-site pair templates (operand dtype / shape, keyword order, sibling function bodies, identity-folding bodies) through the validity oracles", ""),
-    "C05": ("; request space parametrised: a wide configuration (12 positional inputs, 3 leaves incl. a repeated one and one the optimizer folds onto another, layout flag) is emitted and replayed", ""),
+    "C03": ("; @onnx_function call-site pair templates (operand dtype / shape, keyword order, sibling function bodies, identity-folding bodies) through the validity oracles; fan-out bodies and programs (four leaves folding onto one value)", ""),
+    "C05": ("; request space parametrised: a wide configuration (12 positional inputs, 3 leaves incl. a repeated one and one the optimizer folds onto another, layout flag) is emitted and replayed; result kind all_one_value (four leaves on one value: three aliases)", ""),
     "C06": ("; scan variants (reverse, counted without scanned inputs) with reject-or-right replay", ""),
     "C07": ("; J2O_FnDedup extended by keyword order of runtime inputs (CallBinding) and function names allocated in sibling function bodies (NamesUnique, ResolvedSound), three named deviations rejected", ""),
     "C09": ("; J2O_Promotion (JAX's promotion lattice incl. weak scalars, validated against JAX eager) predicts the output type of mixed-operand exports in both modes; J2O_Unwind on the precision-flag managers", ""),
@@ -329,10 +329,12 @@ EXTRA = {
     "C13": ("; J2O_Unwind (teardown attachment of every @contextmanager as facts, real managers driven on every exit path incl. BaseException and generator close); inherited slots in J2O_Host; histories include the first conversion of a process and callers inside jax.enable_x64", ""),
     "C14": ("; conversion-scoped in-build mark with leak deviation; shared-target failing/succeeding request pair and a nested multi-domain function always replayed", ""),
     "C15": ("; parameter location (Loop-body initializer) and mode spelling as dimensions of J2O_FileModes", ""),
-    "C16": ("; reverse-scan variants among the constructs that must be rejected or right", ""),
+    "C16": ("; reverse-scan variants among the constructs that must be rejected or right; J2O_Contract: TLC model of the per-equation output contract (binding kinds x return kinds, ContractSound, 3 deviations rejected), all 312 lowerings registered as a real plugin and driven through to_onnx in 4 scopes; exported 'unsupported' constructs evaluated at 3 input points; N-way switch variants", ""),
     "C17": ("; J2O_Vocab IntVocabSound: members of _INTEGER_VALUE_PRESERVING_OPS (facts) between a bounded Range and a narrowing cast pair with run-time operands carrying out-of-range values", ""),
     "C18": ("; J2O_Unwind on _temporary_x64 (flag restored on every exit path of allclose)", ""),
     "C19": ("; re-spellings of recorded calls first, positional numbers moved to their keyword with another value; substitutes whose source changed since the recorded baseline always executed in the quick tier", ""),
+    "C04": ("; J2O_SymShape: TLC model of the shape algebra of 94 shape-changing operations under named dimensions (laws for every binding, 2 deviations rejected), every case exported with symbols and run at 8 bindings incl. size 1, B = N, B != N, 64", ""),
+    "C08": ("; J2O_LoopWiring: TLC model of the order of the Loop's pass-through results (2 deviations rejected) replayed as 36 real while_loops whose cond / body close over tensors of distinct shapes; Elu reshape chains", ""),
     "C10": ("; J2O_BroadcastBatch (n-ary elementwise substitutes under vmap with batch positions, unmapped operands and differing per-example ranks) replayed over 14 substitutes", ""),
 }
 
